@@ -144,6 +144,8 @@ def run(ctx):
     ctx.prove("MpcVerif.Props.C09", THEOREMS)
     # operator level of the threshold / target axes: corollaries of the C07 exactness theorems, every width and value
     ctx.prove("MpcVerif.Props.C09Builders", BUILDER_THEOREMS)
+    # program level of the target axis: corollary of the C03 back-end theorem (both targets compute ssaEval)
+    ctx.prove("MpcVerif.Props.C09Programs", ["Mpc.C09_program_target_equiv", "Mpc.C09_program_both_targets_compute_meaning"])
     if ctx.tier == "thorough":
         ctx.leanchecker("MpcVerif.Props.C09")
         ctx.leanchecker("MpcVerif.Props.C09Builders")
